@@ -573,7 +573,15 @@ func prepareCalls(r *rng, k int) []prepared {
 				// belongs to ONE call: a failed call must leave nothing behind)
 				o.limit = int64(10 + r.n(150))
 			}
-			c := genApplyCase(r, cfgFor(r), o, r.n(3), r.n(3), 5)
+			gc := cfgFor(r)
+			if r.chance(1, 4) {
+				// repeated member names: what the result is is left open, that it is the SAME result
+				// every time is not
+				gc.dups = true
+				gc.plain = false
+				gc.maxMember = 6
+			}
+			c := genApplyCase(r, gc, o, r.n(3), r.n(3), 5)
 			// escaped reference tokens (~0, ~1) in many of the concurrently applied patches: token
 			// decoding is shared code
 			if r.chance(1, 2) && len(c.doc) > 0 && c.doc[0] == '{' {
@@ -1004,6 +1012,13 @@ func genStructType(r *rng, depth int) reflect.Type {
 			t = reflect.TypeOf(uint8(0))
 		case k == 9:
 			t = reflect.TypeOf([]byte(nil))
+		case depth > 0 && k == 10 && r.chance(1, 2):
+			// containers of structs BY VALUE (the decoder reuses one scratch element per map)
+			if r.chance(1, 2) {
+				t = reflect.MapOf(reflect.TypeOf(""), genStructType(r, depth-1))
+			} else {
+				t = reflect.SliceOf(genStructType(r, depth-1))
+			}
 		case depth > 0 && k == 10:
 			t = genStructType(r, depth-1)
 		case depth > 0:
@@ -1081,8 +1096,10 @@ func fillValue(r *rng, v reflect.Value, depth int) {
 	case reflect.Map:
 		if r.chance(2, 3) {
 			m := reflect.MakeMap(v.Type())
-			for i := r.n(3); i > 0; i-- {
-				m.SetMapIndex(reflect.ValueOf(r.pick(plainNames)), reflect.ValueOf(r.n(9)))
+			for i := r.n(4); i > 0; i-- {
+				e := reflect.New(v.Type().Elem()).Elem()
+				fillValue(r, e, depth-1)
+				m.SetMapIndex(reflect.ValueOf(r.pick(plainNames)), e)
 			}
 			v.Set(m)
 		}
